@@ -984,6 +984,8 @@ package mcp
 //@ func stdioClientTransport.close
 //@   ensures[C08 close-marks-the-transport-closed] t.closed
 //@   ensures[C08 close-cancels-the-transport-context] !old(t.closed) ==> cancels == old(cancels) + 1
+//@   loop 1 invariant[C08] (forall k int64 :: visited(1, k) ==> !(k in t.pendingRequests)) && (forall k int64 :: (k in t.pendingRequests) ==> ranged(1, k))
+//@   ensures[C08 close-leaves-no-pending-entry] !old(t.closed) ==> (forall k int64 :: !(k in t.pendingRequests))
 //@
 //@ sweepscope[C08] kinds=cancel files=streamable_client.go,sse_client.go,transport_stdio.go,client.go,stdio_client.go
 
